@@ -376,7 +376,9 @@ def table_diffs(m, d, base, var, requested, out_cur):
             cols = columns(m, bl[hdr], x)          # a header that changed over a column that did not
             nums = re.findall(m.NUM, x)
             for j, h in enumerate(cols):
-                if h in relabelled and F(nums[j].replace(',', '')) != 0:
+                # (numbers that print alike before and after the conversion - "0.01" USD/lb and "0.01" USD/kg - prove nothing)
+                if h in relabelled and F(nums[j].replace(',', '')) != 0 and \
+                        not m.same_quantity(d, nums[j], norm(PAREN.findall(bl[hdr])[h]), nums[j], norm(PAREN.findall(vl[hdr])[h])):
                     bad.append(('header-only', f'{title}: column ({PAREN.findall(vl[hdr])[h]})', x.strip(), vl[hdr].strip()))
                     relabelled = set()
                     break
